@@ -35,6 +35,10 @@ SUITE += [
     "N0=const 3 %s ; N1=reshuffle N0 ; N2=map N1 inc ; OUT N2" % BIG,
     "N0=const 2 %s ; N1=fold N0 ; N2=reshuffle N1 ; OUT N2" % BIG,
 ]
+# a Reduce whose shuffle partitions hold far more than the 128 rows of the reduce-merge's read buffers: a machine lost in the
+# middle of a shuffle read fails a *refill* of the merge (not its first fill)
+MANY = " ".join("%d:%d" % (i, i % 7) for i in range(2400))
+SUITE += ["N0=const 2 %s ; N1=reduce N0 add ; OUT N1" % MANY]
 REUSE = ("N0=const 3 %s ; N1=reduce N0 add ; OUT N1" % ROWS, "N0=reshuffle R0 ; N1=map N0 inc ; OUT N1")
 METHODS = [("Worker.Run", 12), ("Worker.Read", 16), ("Worker.Compile", 3), ("Worker.Stat", 6), ("Worker.CommitCombiner", 3),
            ("Supervisor.Keepalive", 6), ("Worker.TaskStats", 4),
@@ -71,6 +75,9 @@ def gen(r, tier):
             for n in range(1, mx + 1, 2):
                 for ph in ("before", "after"):
                     yield "bm M1 P2 ;; KILL %s %d %s ;; %s ;; %s" % (m, n + 4, ph, REUSE[0], REUSE[1])
+    # directed: the shuffle reads of the many-key Reduce cut in the middle (every one of them in the thorough tier)
+    for n in ((1, 2, 3, 4) if tier == "quick" else range(1, 9)):
+        yield "bm M1 P2 ;; KILL Worker.Read %d mid ;; %s" % (n, SUITE[-1])
     boot = list(directed_boot())
     for c in (boot if tier != "quick" else [c for c in boot if r.below(3) == 0]):
         yield c
